@@ -1011,4 +1011,267 @@ theorem facts_updateFrom {s : State} (h : Inv s) (o : Other) (hns : o.comps ≠ 
     refine facts_refresh_tail h E1 E2 rfl rfl (fun _ => rfl) rfl ?_ rfl rfl (fun _ _ => rfl)
     simp
 
+
+/-! ## failed calls -/
+
+theorem findIn_congr {lab1 lab2 : Cid → Label} (l : Label) : ∀ (tiers : List (List Cid)),
+    (∀ t ∈ tiers, ∀ c ∈ t, lab1 c = lab2 c) → findIn lab1 l tiers = findIn lab2 l tiers
+  | [], _ => rfl
+  | t :: ts, h => by
+    have ht : (t.filter fun c => lab1 c == l) = (t.filter fun c => lab2 c == l) := by
+      apply List.filter_congr
+      intro c hc
+      rw [h t List.mem_cons_self c hc]
+    simp only [findIn, ht]
+    rw [findIn_congr l ts (fun t' ht' => h t' (List.mem_cons_of_mem _ ht'))]
+
+/-- Allocating an identifier that is never stored is invisible. -/
+theorem obs_fresh (probe : List Label) {s : State} (h : Inv s) (l : Label) :
+    obs probe (fresh s l).1 = obs probe s := by
+  have hlab : ∀ c, c < s.next → (fresh s l).1.label c = s.label c := by
+    intro c hc
+    simp only [State.label, fresh, List.lookup_cons]
+    have : (c == s.next) = false := by simpa using (by omega : c ≠ s.next)
+    simp [this]
+  have hcl : ∀ c ∈ s.comps, (fresh s l).1.label c.cid = s.label c.cid :=
+    fun c hc => hlab _ (h.fresh.1 _ (List.mem_map.2 ⟨c, hc, rfl⟩))
+  simp only [obs]
+  have e1 : (fresh s l).1.comps = s.comps := rfl
+  have e2 : (fresh s l).1.shape = s.shape := rfl
+  have e3 : (fresh s l).1.linked = s.linked := rfl
+  congr 1
+  · rw [e1, e2]
+    apply List.map_congr_left
+    intro c hc
+    rw [hcl c hc]
+  · rw [e3]
+    apply List.map_congr_left
+    intro c hc
+    rw [hlab c (h.fresh.2 c hc)]
+  · apply List.map_congr_left
+    intro l' _
+    congr 1
+    simp only [findImpl]
+    apply findIn_congr
+    intro t ht c hc
+    have hlt : c < s.next := by
+      simp only [List.mem_cons, List.mem_nil_iff, or_false] at ht
+      rcases ht with rfl | rfl | rfl | rfl
+      · simp only [mainCids, fresh] at hc
+        obtain ⟨y, hy, rfl, _⟩ := mem_cids_filter hc
+        exact h.fresh.1 _ (List.mem_map.2 ⟨y, hy, rfl⟩)
+      · simp only [derivedCids, fresh] at hc
+        obtain ⟨y, hy, rfl, _⟩ := mem_cids_filter hc
+        exact h.fresh.1 _ (List.mem_map.2 ⟨y, hy, rfl⟩)
+      · simp only [coordCids, fresh] at hc
+        obtain ⟨y, hy, rfl, _⟩ := mem_cids_filter hc
+        exact h.fresh.1 _ (List.mem_map.2 ⟨y, hy, rfl⟩)
+      · exact h.fresh.2 c hc
+    exact hlab c hlt
+
+theorem step_err (probe : List Label) {s : State} {op : Op} (h : Inv s) (hns : classify s op = .ok) {e : Err}
+    (he : (step s op).err = some e) :
+    obs probe (step s op).state = obs probe s ∧ (step s op).msgs = [] := by
+  cases op with
+  | addArray l shape val =>
+    simp only [step] at he ⊢
+    split at he
+    · rename_i hc; rw [if_pos hc]; exact ⟨rfl, rfl⟩
+    · cases he
+  | addArrayAt c shape val =>
+    simp only [step] at he ⊢
+    split at he
+    · rename_i hc; rw [if_pos hc]; exact ⟨rfl, rfl⟩
+    · cases he
+  | addDerived v l deps =>
+    simp only [step, addDerivedImpl] at he ⊢
+    split at he
+    · rename_i hv
+      rw [if_pos hv]
+      split at he
+      · rename_i hd; rw [if_pos hd]; exact ⟨obs_fresh probe h l, rfl⟩
+      · rename_i hd
+        rw [if_neg hd]
+        split at he
+        · rename_i hem; rw [if_pos hem]; exact ⟨obs_fresh probe h l, rfl⟩
+        · cases he
+    · rename_i hv
+      rw [if_neg hv]
+      split at he
+      · rename_i hem; rw [if_pos hem]; exact ⟨rfl, rfl⟩
+      · cases he
+  | remove c => simp [step, ok] at he
+  | reorder cs =>
+    simp only [step, reorderImpl] at he ⊢
+    split at he
+    · rename_i hc; rw [if_pos hc]; exact ⟨rfl, rfl⟩
+    · rename_i hc
+      rw [if_neg hc]
+      split at he
+      · rename_i hc2; rw [if_pos hc2]; exact ⟨rfl, rfl⟩
+      · split at he <;> cases he
+  | updateId old new => simp [step, ok] at he
+  | updateComponents m =>
+    simp only [step, updateComponentsImpl] at he ⊢
+    split at he
+    · exact ⟨rfl, rfl⟩
+    · cases he
+  | updateFrom o =>
+    have hne : o.comps ≠ [] → o.shape ≠ [] := by
+      obtain ⟨_, hargs⟩ := classify_ok hns
+      intro hne hs
+      simp only [classifyArgs] at hargs
+      have : o.comps.isEmpty = false := by simpa using hne
+      simp [hs, this] at hargs
+    by_cases hd1 : (!decide ((nonCoord s).map (fun c => s.label c.cid)).Nodup) = true
+    · simp only [step, updateFromImpl, hd1, if_true]; exact ⟨rfl, rfl⟩
+    · by_cases hd2 : (!decide (o.comps.map (·.1)).Nodup) = true
+      · simp only [step, updateFromImpl, hd1, hd2, if_true, if_false]
+        exact ⟨rfl, rfl⟩
+      · exfalso
+        -- no other failure is possible
+        simp only [step, updateFromImpl, hd1, hd2, if_false] at he
+        obtain ⟨hI4, hsh⟩ := inv_ufRefreshed h o hne
+        obtain ⟨_, herr5, _⟩ := eff_addNewOnes (old := fun c => c < s.next) o.shape
+          (o.comps.filter fun p => !((nonCoord s).map (fun c => s.label c.cid)).contains p.1) hI4 hsh
+          (by
+            intro hne'
+            apply hne
+            intro hoc
+            rw [hoc] at hne'
+            exact hne' rfl)
+          (fun c hc => by
+            have := (ufStages_eff (old := fun c => c < s.next) (W_of_inv h) (fun _ hc => hc) o).2.2
+            exact Nat.lt_of_lt_of_le hc this)
+        rw [herr5] at he
+        cases he
+  | setCoords v => simp [step, ok] at he
+  | rename c l =>
+    simp only [step] at he
+    split at he <;> cases he
+  | setLabel l => simp [step, ok] at he
+  | attach =>
+    simp only [step] at he
+    split at he <;> cases he
+  | detach => simp [step, ok] at he
+  | register => simp [step, ok] at he
+  | setLinked cs =>
+    simp only [step] at he
+    split at he <;> cases he
+  | nop => simp [step, ok] at he
+
+
+/-! ## every successful call inside the hypothesis -/
+
+theorem step_facts {s : State} {op : Op} (h : Inv s) (hc : classify s op = .ok) (he : (step s op).err = none) :
+    Facts s (step s op).state op (step s op).msgs := by
+  obtain ⟨hids, hargs⟩ := classify_ok hc
+  cases op with
+  | addArray l shape val =>
+    simp only [step] at he ⊢
+    split at he
+    · cases he
+    · rename_i hcan
+      rw [if_neg hcan]
+      simp only [ok]
+      exact facts_addMain_fresh h _ l shape val (by simpa using hcan) (fun _ _ => rfl)
+  | addArrayAt c shape val =>
+    simp only [step] at he ⊢
+    split at he
+    · cases he
+    · rename_i hcan
+      rw [if_neg hcan]
+      simp only [ok]
+      simp only [classifyArgs] at hargs
+      split at hargs
+      · cases hargs
+      · split at hargs
+        · cases hargs
+        · rename_i hnew
+          simp only [Bool.or_eq_true, not_or, Bool.not_eq_true] at hnew
+          exact facts_addMain_at h _ c (hids c (by simp [Op.ids])) (by simpa using hnew.1.1) shape val (fun _ _ => rfl)
+  | addDerived v l deps =>
+    simp only [step, addDerivedImpl] at he ⊢
+    split at he
+    · rename_i hv
+      rw [if_pos hv]
+      split at he
+      · cases he
+      · rename_i hd
+        rw [if_neg hd]
+        split at he
+        · cases he
+        · rename_i hem
+          rw [if_neg hem]
+          simp only [ok]
+          exact facts_addRaw_fresh h _ l (.derived deps) (by simpa [fresh] using hem) (fun _ _ => rfl)
+    · rename_i hv
+      rw [if_neg hv]
+      split at he
+      · cases he
+      · rename_i hem
+        rw [if_neg hem]
+        simp only [ok]
+        exact facts_addRaw_fresh h _ l (.derived deps) (by simpa using hem) (fun _ _ => rfl)
+  | remove c => exact facts_remove h c
+  | reorder cs => exact facts_reorder h cs he
+  | updateId old new =>
+    simp only [step, ok]
+    simp only [classifyArgs] at hargs
+    split at hargs
+    · rename_i heq
+      have : new = old := by simpa using heq
+      subst this
+      simp only [updateIdImpl, beq_self_eq_true, if_true]
+      exact facts_silent h.nodup rfl rfl (fun _ _ => rfl) rfl (Or.inl rfl) (Or.inl rfl) (by simp [orderOk])
+    · rename_i hne
+      split at hargs
+      · cases hargs
+      · rename_i hnew
+        simp only [Bool.or_eq_true, not_or, Bool.not_eq_true] at hnew
+        exact facts_updateId h old new (by simpa using hnew.1.1) (by simpa using hne)
+  | updateComponents m =>
+    simp only [step, updateComponentsImpl] at he ⊢
+    split at he
+    · cases he
+    · rename_i hchk
+      exact facts_updateComponents h m hchk
+  | updateFrom o =>
+    apply facts_updateFrom h o _ he
+    intro hne hs
+    simp only [classifyArgs] at hargs
+    have : o.comps.isEmpty = false := by simpa using hne
+    simp [hs, this] at hargs
+  | setCoords v => exact facts_setCoords h v
+  | rename c l =>
+    apply facts_rename h c l
+    simp only [classifyArgs] at hargs
+    split at hargs
+    · rename_i hcc; simpa using hcc
+    · cases hargs
+  | setLabel l => exact facts_setLabel h l
+  | attach => exact facts_hubops h _ (Or.inl rfl)
+  | detach => exact facts_hubops h _ (Or.inr (Or.inl rfl))
+  | register => exact facts_hubops h _ (Or.inr (Or.inr (Or.inl rfl)))
+  | setLinked cs => exact facts_setLinked h cs
+  | nop => exact facts_hubops h _ (Or.inr (Or.inr (Or.inr rfl)))
+
+/-- Each call inside the hypothesis emits exactly the messages that explain what it changed; a
+failed call changes and announces nothing. -/
+theorem messages_exact (probe : List Label) {s : State} {op : Op} (h : Inv s) (hc : classify s op = .ok) :
+    specStep (obs probe s) op (obs probe (step s op).state) (step s op).msgs (step s op).err = true := by
+  cases he : (step s op).err with
+  | none => exact specStep_of_facts probe (step_facts h hc he)
+  | some e =>
+    obtain ⟨h1, h2⟩ := step_err probe h hc he
+    simp [specStep, h1, h2]
+
+theorem trace_ok (probe : List Label) : ∀ (ops : List Op) {s : State}, Inv s → allOk s ops = true →
+    specTrace (obs probe s) (trace probe s ops) = true
+  | [], s, h, _ => by simpa [trace, specTrace] using inv_specInv probe s h
+  | op :: ops, s, h, hok => by
+    simp only [allOk, Bool.and_eq_true, beq_iff_eq] at hok
+    simp only [trace, specTrace, Bool.and_eq_true]
+    exact ⟨⟨inv_specInv probe s h, messages_exact probe h hok.1⟩, trace_ok probe ops (step_inv h hok.1) hok.2⟩
+
 end GlueVerif.Lemmas.C17
